@@ -241,6 +241,25 @@ def task_columns(ctx, levels, lname):
   d_lo = P[1] - P[0]; d_hi = P[-1] - P[-2]
   lo_lim, hi_lim = P[0] - d_lo, P[-1] + d_hi
 
+  def col_replay(fn, k, expected):
+    def rp(model):
+      vals = []
+      for v in (av, bv, psv):
+        m = model.eval(v, model_completion=True)
+        try:
+          vals.append(float(m.as_fraction()))
+        except Exception:
+          vals.append(float(m.approx(20).as_fraction()))
+      a_, b_, ps_ = vals
+      got = float(np.asarray(fn(jnp.full((1, 1, 1), a_), jnp.full((1, 1, 1), b_), jnp.full((1, 1, 1), ps_)))[k, 0, 0])
+      exp = float(expected(a_, b_, ps_))
+      same = (np.isnan(got) and np.isnan(exp)) or (not np.isnan(got) and not np.isnan(exp) and abs(got - exp) <= 1e-7)
+      if same:
+        return None
+      return (f'{fn.__name__}: affine column a={a_}, b={b_}, surface pressure {ps_}: level {k} gives {got}, documented {exp}',
+              dict(inputs=[a_, b_, ps_], level=k, got=repr(got), documented=repr(exp)))
+    return rp
+
   # affine column in pressure f(p) = a + b p/1000 on pressure levels -> sigma levels
   def to_sigma(a, b, ps):
     fld = a + b * (P[:, None, None] / 1000.0)
@@ -261,7 +280,8 @@ def task_columns(ctx, levels, lname):
       else:
         bad = r != z3.RealVal(NAN)
       decide(ctx, 'pressure_to_sigma.affine_columns_exact_within_one_cell_of_the_levels_missing_beyond', dict(conf, level=k, ps_interval=[l, h]),
-             box + reg, bad, spec=reg)
+             box + reg, bad, spec=reg,
+             replay=col_replay(to_sigma, k, lambda a_, b_, ps_, sk=sk: (a_ + b_ * ps_ * sk / 1000.0) if lo_lim < ps_ * sk < hi_lim else np.nan))
   # sigma -> pressure of an affine-in-sigma column  f(sigma) = a + b sigma
   def to_pressure(a, b, ps):
     fld = a + b * sig.centers[:, None, None]
@@ -283,7 +303,8 @@ def task_columns(ctx, levels, lname):
         else:
           bad = r != z3.RealVal(NAN)
         decide(ctx, 'sigma_to_pressure.affine_columns_exact_within_one_cell_of_the_levels_missing_beyond', dict(conf, level=k, ps_interval=[l, h]),
-               box + reg, bad, spec=reg)
+               box + reg, bad, spec=reg,
+               replay=col_replay(to_pressure, k, lambda a_, b_, ps_, pk=pk: (a_ + b_ * pk / ps_) if s_lo < pk / ps_ < s_hi else np.nan))
   # surface pressure: piecewise-linear geopotential in pressure meets g * orography
   sp2 = TermSpace()
   geo = TermArr.variables(sp2, 'phi', (pc.layers, 1, 1)); oro = TermArr.variables(sp2, 'h', (1, 1, 1))
